@@ -420,3 +420,5 @@ def r16_5(cx):
 
 
 RULES = [('R16.1', r16_1), ('R16.2', r16_2), ('R16.3', r16_3), ('R16.4', r16_4), ('R16.5', r16_5)]
+RULES.append(('R16.6', scan_rule(('sliding_deque::sorted_deque::',))))
+FLOORS['R16.6'] = 1
